@@ -966,3 +966,55 @@ Definition mval_cell (v : mval) : Cql.cell :=
   end.
 Definition mty_ctype (t : mty) : Cql.ctype :=
   Cql.TNative match t with TInt => Cql.NInt | TText => Cql.NText | TBlob => Cql.NBlob end.
+
+(* ========================================================================================== *)
+(* UTF-8 specified independently of Cql.utf8_valid (proof only; nothing here is extracted)    *)
+(* ========================================================================================== *)
+(* RFC 3629 section 4 / Unicode table 3-7 "Well-Formed UTF-8 Byte Sequences", row by row *)
+Definition utail (x : N) : Prop := 128 <= x <= 191.
+Inductive utf8_wf : bytes -> Prop :=
+| wf_nil : utf8_wf []
+| wf_ascii x r : x <= 127 -> utf8_wf r -> utf8_wf (x :: r)                                  (* 00..7F *)
+| wf_2 x c1 r : 194 <= x <= 223 -> utail c1 -> utf8_wf r -> utf8_wf (x :: c1 :: r)          (* C2..DF 80..BF *)
+| wf_e0 c1 c2 r : 160 <= c1 <= 191 -> utail c2 -> utf8_wf r -> utf8_wf (224 :: c1 :: c2 :: r)             (* E0 A0..BF 80..BF *)
+| wf_e1 x c1 c2 r : 225 <= x <= 236 -> utail c1 -> utail c2 -> utf8_wf r -> utf8_wf (x :: c1 :: c2 :: r)  (* E1..EC 80..BF 80..BF *)
+| wf_ed c1 c2 r : 128 <= c1 <= 159 -> utail c2 -> utf8_wf r -> utf8_wf (237 :: c1 :: c2 :: r)             (* ED 80..9F 80..BF *)
+| wf_ee x c1 c2 r : 238 <= x <= 239 -> utail c1 -> utail c2 -> utf8_wf r -> utf8_wf (x :: c1 :: c2 :: r)  (* EE..EF 80..BF 80..BF *)
+| wf_f0 c1 c2 c3 r : 144 <= c1 <= 191 -> utail c2 -> utail c3 -> utf8_wf r ->
+                     utf8_wf (240 :: c1 :: c2 :: c3 :: r)                                                 (* F0 90..BF 80..BF 80..BF *)
+| wf_f1 x c1 c2 c3 r : 241 <= x <= 243 -> utail c1 -> utail c2 -> utail c3 -> utf8_wf r ->
+                       utf8_wf (x :: c1 :: c2 :: c3 :: r)                                                 (* F1..F3 80..BF 80..BF 80..BF *)
+| wf_f4 c1 c2 c3 r : 128 <= c1 <= 143 -> utail c2 -> utail c3 -> utf8_wf r ->
+                     utf8_wf (244 :: c1 :: c2 :: c3 :: r).                                                (* F4 80..8F 80..BF 80..BF *)
+
+(* RFC 3629 section 3, the definition of UTF-8: a sequence of Unicode scalar values (U+0000..U+10FFFF
+   without the surrogates U+D800..U+DFFF), each encoded in the shortest of the four forms *)
+Definition scalar (c : N) : Prop := c < 55296 \/ (57343 < c /\ c <= 1114111).
+Definition utf8_enc (c : N) : bytes :=
+  if c <? 128 then [c]                                                      (* 0xxxxxxx *)
+  else if c <? 2048 then [192 + c / 64; 128 + c mod 64]                     (* 110xxxxx 10xxxxxx *)
+  else if c <? 65536 then [224 + c / 4096; 128 + (c / 64) mod 64; 128 + c mod 64]   (* 1110xxxx 10xxxxxx 10xxxxxx *)
+  else [240 + c / 262144; 128 + (c / 4096) mod 64; 128 + (c / 64) mod 64; 128 + c mod 64].
+Definition utf8_of (cs : list N) : bytes := List.concat (map utf8_enc cs).
+(* "b is the UTF-8 encoding of some text" *)
+Definition text_rfc (b : bytes) : Prop := exists cs, Forall scalar cs /\ b = utf8_of cs.
+
+Definition stmt_wf_rfc (s : stmt) : Prop := match s with SQuery t => text_rfc t | SPrepared _ => True end.
+(* the texts of a request are UTF-8 in that sense *)
+Definition req_texts_rfc (r : request) : Prop :=
+  match r with
+  | Query t _ => text_rfc t
+  | Prepare t => text_rfc t
+  | Batch _ stmts _ _ _ _ => Forall stmt_wf_rfc stmts
+  | Startup opts => Forall (fun kv => text_rfc (fst kv) /\ text_rfc (snd kv)) opts
+  | _ => True
+  end.
+(* [req_wf] with the independent UTF-8 specification in place of Cql.utf8_valid *)
+Definition req_wf_rfc (r : request) : Prop :=
+  req_texts_rfc r /\
+  match r with
+  | Query _ p => qparams_wf p
+  | Execute _ _ p => qparams_wf p
+  | Batch _ _ _ _ _ ts => opt_ok i64_ok ts
+  | _ => True
+  end.
